@@ -492,3 +492,82 @@ Proof.
   split; [vm_compute; reflexivity|]. split; [vm_compute; reflexivity|].
   vm_compute. split; [reflexivity|]. split; reflexivity.
 Qed.
+
+(* ---- the oracle of the C02 check (Spec/HistObs.v) ----
+   Every run of the check evaluates, per history of statements, flushes, crash-restarts, read-backs
+   and page dumps, `model_agrees` (Go's observations equal run_h's) and the strict oracle
+   `spec_accepts_strict` (at every read-back every table holds exactly what the acknowledged
+   statements put there, whatever flushes and crash-restarts happened in between; ids are never
+   reused, also across recoveries; no recovery fails; refusals only where the specification
+   refuses). Agreement implies acceptance for EVERY such case, under the boolean hypotheses of
+   C01full.v on the events alone - no (H1), no (H2): the crash invariant comes from
+   MovesFromRep.RInv (Proofs/OracleCrash.v; re-exported here with the hypotheses first). *)
+From Mkdb Require Import Spec.HistObs Proofs.OracleSound Proofs.OracleCrash Proofs.OracleTorn.
+
+Theorem C02_agreement_implies_acceptance : forall c,
+  hist_shape_c (fst c) = true -> forallb hev_ok (fst c) = true -> forallb hev_stmt_shape (fst c) = true ->
+  frontier_ok init_sys (fst c) = true -> reads_cover [] [] [] (fst c) = true -> forallb strict_hev (fst c) = true ->
+  model_agrees c = true -> spec_accepts_strict c = true.
+Proof. exact agreement_implies_strict_acceptance_crash'. Qed.
+Print Assumptions C02_agreement_implies_acceptance.
+
+Theorem C02_oracle_accepts_model : forall hevs,
+  hist_shape_c hevs = true -> forallb hev_ok hevs = true -> forallb hev_stmt_shape hevs = true ->
+  frontier_ok init_sys hevs = true -> reads_cover [] [] [] hevs = true -> forallb strict_hev hevs = true ->
+  spec_accepts_strict (hevs, run_h init_sys hevs) = true.
+Proof. exact model_passes_oracle_crash_strict. Qed.
+Print Assumptions C02_oracle_accepts_model.
+
+(* the same statement is an instance of the theorem for all event kinds (C03 / C04): a history
+   without torn flushes and crashes inside a log append satisfies torn_ok *)
+Theorem C02_histories_are_torn_ok : forall hevs y, hist_shape_c hevs = true -> torn_ok y hevs = true.
+Proof. intros hevs y H. exact (torn_ok_of_shape_c hevs H y). Qed.
+Print Assumptions C02_histories_are_torn_ok.
+
+(* non-vacuity: a crash while the 12 rows and the root move of t are only in the log, a refused
+   INSERT, a flush followed by a crash, an INSERT and an UPDATE lost from the cache by a third crash
+   and redone from the log, two recoveries in a row; read-backs in between *)
+Definition hx_row2 (i : Z) : list value := [VInt i; VStr "r"].
+Definition hx_crash : list hevent :=
+  [HEv (EvStmt (SCreateTable "t" [mkColDef "a" STNumeric; mkColDef "b" (STVarchar 20)]));
+   HEv (EvStmt (SInsert "t" [] (map hx_row2 [1;2;3;4;5;6;7;8;9;10;11;12]%Z)));
+   HReadTables ["t"; "sys_schema"];
+   HEv EvCrash;
+   HReadTables ["t"; "sys_schema"]; HDumpPages;
+   HEv (EvStmt (SDelete "t" (Some (EPred (XCol (mkCol "" "a")) CEq (XLit (VInt 2))))));
+   HEv (EvStmt (SInsert "t" [] [[VInt 2147483648; VStr "x"]]));
+   HEv EvFlush; HEv EvCrash;
+   HEv (EvStmt (SInsert "t" [] [[VInt 13; VStr "n"]]));
+   HEv (EvStmt (SUpdate "t" [("b", XLit (VStr "u"))] (Some (EPred (XCol (mkCol "" "a")) CLt (XLit (VInt 4))))));
+   HEv EvCrash; HEv EvCrash;
+   HReadTables ["t"; "sys_schema"]].
+
+Example C02_agreement_nonvacuous :
+  hist_shape_c hx_crash = true /\ forallb hev_ok hx_crash = true /\ forallb hev_stmt_shape hx_crash = true /\
+  frontier_ok init_sys hx_crash = true /\ reads_cover [] [] [] hx_crash = true /\ forallb strict_hev hx_crash = true /\
+  model_agrees (hx_crash, run_h init_sys hx_crash) = true /\
+  spec_accepts_strict (hx_crash, run_h init_sys hx_crash) = true /\
+  map (fun o => match o with HOut x => Some x | _ => None end) (run_h init_sys hx_crash) =
+    [Some OBok; Some OBok; None; Some OBok; None; None; Some OBok; Some (OBerr EIntRange); Some OBok;
+     Some OBok; Some OBok; Some OBok; Some OBok; Some OBok; None] /\
+  (match nth 14 (run_h init_sys hx_crash) HNone with
+   | HTables ((_, TRows _ rows) :: _) => map (fun r => (fst r, snd r)) rows | _ => [] end) =
+    [(12, [VInt 1; VStr "u"]); (14, [VInt 3; VStr "u"]); (15, [VInt 4; VStr "r"]); (16, [VInt 5; VStr "r"]);
+     (17, [VInt 6; VStr "r"]); (18, [VInt 7; VStr "r"]); (19, [VInt 8; VStr "r"]); (20, [VInt 9; VStr "r"]);
+     (21, [VInt 10; VStr "r"]); (22, [VInt 11; VStr "r"]); (23, [VInt 12; VStr "r"]); (24, [VInt 13; VStr "n"])]%N.
+Proof. vm_compute. repeat split; reflexivity. Qed.
+
+(* the oracle is not the constant true on such cases: after the first crash, a read-back that lost
+   the last row (which only the log had), or shows it with another value, or a failed recovery, is rejected *)
+Definition hx_crash_short : list hevent := firstn 5 hx_crash.
+Definition hx_crash_rows : list (N * row) :=
+  map (fun i => (N.of_nat (11 + i), hx_row2 (Z.of_nat i))) (List.seq 1 12).
+Definition hx_crash_obs (rows : list (N * row)) : list hobs :=
+  firstn 4 (run_h init_sys hx_crash_short) ++ [HTables [("t", TRows ["a"; "b"] rows); nth 1 (match nth 2 (run_h init_sys hx_crash_short) HNone with HTables l => l | _ => [] end) ("", TPanic)]].
+Example C02_oracle_rejects :
+  run_h init_sys hx_crash_short = hx_crash_obs hx_crash_rows /\
+  spec_accepts_strict (hx_crash_short, hx_crash_obs hx_crash_rows) = true /\
+  spec_accepts_strict (hx_crash_short, hx_crash_obs (firstn 11 hx_crash_rows)) = false /\
+  spec_accepts_strict (hx_crash_short, hx_crash_obs (firstn 11 hx_crash_rows ++ [(23%N, hx_row2 13)])) = false /\
+  spec_accepts_strict (hx_crash_short, firstn 3 (run_h init_sys hx_crash_short) ++ [HOut (OBerr ECorrupt); HDead]) = false.
+Proof. vm_compute. repeat split; reflexivity. Qed.
